@@ -143,6 +143,12 @@ class SymHandler(Handler):
             self.raised = True
         elif isinstance(node, ast.Expr):
             self.calls.append(node.value)
+            # a call handed a local container may fill or change it: what is read from that container afterwards is
+            # whatever the callee left there, not a free symbol
+            if isinstance(node.value, ast.Call):
+                for a in list(node.value.args) + [k.value for k in node.value.keywords]:
+                    if isinstance(a, ast.Name):
+                        self.sym.escaped.add(a.id)
         else:
             raise Unrecognised(f"statement {norm(node)}")
 
